@@ -163,6 +163,14 @@ def run_history(layout, hist, other_fs):
         view = [r.data['UID'] for r in st.untagged('FETCH')]
         w.jail.on_boundary = boundary
         w.jail.on_after_open = after_open
+
+        def done(op, ok):
+            # the state right after a mutating call is a crash point of its
+            # own: data still sitting in a process buffer (not yet flushed by
+            # close) is lost by a kill although the call has happened
+            if ok and state['inflight'] is not None:
+                snap(f'just-after-{op}#{w.jail.mut_count}')
+        w.jail.on_done = done
         results = []
         by_cmd = []
         for k, ai in enumerate(hist):
@@ -183,6 +191,7 @@ def run_history(layout, hist, other_fs):
             snap(f'after-{k}-{name}')
         w.jail.on_boundary = None
         w.jail.on_after_open = None
+        w.jail.on_done = None
         state['inflight'] = None
         ctx.do(si, b'LOGOUT')
         snap('clean-stop')
